@@ -1,25 +1,184 @@
-import Prom.Model.Conc
+import Prom.Lemmas.Guard
 /-
 C10 — Concurrent use of a metric vector is linearizable.
 
 Subject: the step machine `Conc.vStep` over the critical sections of the children lock (read lock /
 unlock, write lock / unlock), child creation and updates through handles. Any list of accepted
-items is a run: any number of threads, programs and interleavings. Each operation takes effect inside
-its last critical section (the lookup of a hit, the insert/remove/clear under the write lock, the
-reads of a collect under the read lock), i.e. at a step of the operation itself.
+items is a run: any number of threads, programs and interleavings. The machine touches the
+vector's content only through `vEff`, i.e. by performing one operation of the sequential
+specification `VSpec.apply` and recording it in the commit log.
 -/
 /- Helper lemmas and auxiliary definitions for Props/C10.lean (kept apart from the property theorems). -/
 namespace Prom.C10
 open Prom Prom.Conc
 
-/-- keys pairwise distinct, child ids in range -/
-def VInv (s : VSt) : Prop :=
-  (s.children.map (·.1)).Nodup ∧ ∀ p ∈ s.children, p.2 < s.vals.length
+/-- run the sequential specification over a commit log, checking every recorded result -/
+def specRunV : VSpec → List VLin → Option VSpec
+  | s, [] => some s
+  | s, l :: r => if (s.apply l.op).2 = l.res then specRunV (s.apply l.op).1 r else none
 
-theorem vLookup_none {s : VSt} {k : String} (h : vLookup s k = none) : ∀ p ∈ s.children, p.1 ≠ k := by
-  unfold vLookup at h
+theorem specRunV_append (s : VSpec) (l : List VLin) (x : VLin) :
+    specRunV s (l ++ [x]) = (specRunV s l).bind fun s' => specRunV s' [x] := by
+  induction l generalizing s with
+  | nil => simp [specRunV]
+  | cons a r ih =>
+    simp only [List.cons_append, specRunV]
+    split
+    · exact ih _
+    · rfl
+
+def VLinInv (s : VSt) : Prop := specRunV {} s.lin = some s.spec
+
+/-- what an accepted item does to the vector's content and the commit log: nothing, or exactly one
+    operation of the sequential specification, recorded -/
+inductive VTrans (s s' : VSt) : Prop
+  | frame (hs : s'.spec = s.spec) (hl : s'.lin = s.lin)
+  | eff (t : Nat) (op : VOp) (hs : s'.spec = (vEff s t op).1.spec) (hl : s'.lin = (vEff s t op).1.lin)
+
+theorem vTrans_linInv {s s' : VSt} (hi : VLinInv s) (h : VTrans s s') : VLinInv s' := by
+  cases h with
+  | frame hs hl => unfold VLinInv; rw [hs, hl]; exact hi
+  | eff t op hs hl =>
+    unfold VLinInv at hi ⊢
+    rw [hs, hl]
+    simp only [vEff, specRunV_append, hi, Option.bind_some, specRunV, if_true]
+
+theorem vTrans_lin_mono {s s' : VSt} (h : VTrans s s') : s.lin <+: s'.lin := by
+  cases h with
+  | frame hs hl => rw [hl]; exact List.prefix_refl _
+  | eff t op hs hl => rw [hl]; exact List.prefix_append _ _
+
+theorem vStep_trans {s s' : VSt} {e : Ev} (h : vStep s e = .ok s') : VTrans s s' := by
+  unfold vStep at h
+  split at h
+  · cases h
+  · next th hth =>
+    split at h
+    · cases h
+    · next pc hpc =>
+      simp only at h
+      split at h
+      · -- start
+        next op =>
+        split at h
+        · rw [guard_ok] at h; obtain ⟨_, h⟩ := h
+          rw [guard_ok] at h; obtain ⟨_, h⟩ := h
+          split at h
+          · cases h; exact .eff e.tid _ rfl rfl
+          · cases h; exact .frame rfl rfl
+        · split at h
+          · rw [guard_ok] at h; obtain ⟨_, h⟩ := h
+            rw [guard_ok] at h; obtain ⟨_, h⟩ := h
+            cases h; exact .eff e.tid _ rfl rfl
+          · split at h
+            · rw [guard_ok] at h; obtain ⟨_, h⟩ := h
+              rw [guard_ok] at h; obtain ⟨_, h⟩ := h
+              cases h; exact .eff e.tid _ rfl rfl
+            · cases h
+      · -- rheld
+        rw [guard_ok] at h; obtain ⟨_, h⟩ := h
+        split at h
+        · cases h; exact .frame rfl rfl
+        · cases h; exact .frame rfl rfl
+      · -- needW
+        rw [guard_ok] at h; obtain ⟨_, h⟩ := h
+        rw [guard_ok] at h; obtain ⟨_, h⟩ := h
+        split at h
+        · cases h; exact .eff e.tid _ rfl rfl
+        · cases h
+      · -- wheld
+        rw [guard_ok] at h; obtain ⟨_, h⟩ := h
+        cases h; exact .frame rfl rfl
+      · -- incChild
+        rw [guard_ok] at h; obtain ⟨_, h⟩ := h
+        rw [guard_ok] at h; obtain ⟨_, h⟩ := h
+        split at h
+        · rw [guard_ok] at h; obtain ⟨_, h⟩ := h
+          cases h; exact .eff e.tid _ rfl rfl
+        · rw [guard_ok] at h; obtain ⟨_, h⟩ := h
+          cases h; exact .eff e.tid _ rfl rfl
+      · -- collecting
+        split at h
+        · split at h
+          · cases h
+          · next c _ =>
+            rw [guard_ok] at h; obtain ⟨_, h⟩ := h
+            cases h
+            refine .eff e.tid (.read c) ?_ ?_
+            · simp only []; split <;> rfl
+            · simp only []; split <;> rfl
+        · rw [guard_ok] at h; obtain ⟨_, h⟩ := h
+          rw [guard_ok] at h; obtain ⟨_, h⟩ := h
+          cases h; exact .frame rfl rfl
+
+theorem vItem_trans {s s' : VSt} {it : Item} (h : vItem s it = .ok s') : VTrans s s' := by
+  cases it with
+  | ev e => exact vStep_trans h
+  | call t i op =>
+    simp only [vItem] at h
+    repeat' split at h
+    all_goals first
+      | (cases h; done)
+      | (cases h; exact .frame rfl rfl)
+  | ret t i v =>
+    simp only [vItem] at h
+    repeat' split at h
+    all_goals first
+      | (cases h; done)
+      | (cases h; exact .frame rfl rfl)
+  | other x => simp [vItem] at h
+
+/-- keys pairwise distinct, child ids in range -/
+def SpecInv (s : VSpec) : Prop :=
+  (s.map.map (·.1)).Nodup ∧ ∀ p ∈ s.map, p.2 < s.vals.length
+
+theorem lookup_none {s : VSpec} {k : String} (h : s.lookup k = none) : ∀ p ∈ s.map, p.1 ≠ k := by
+  unfold VSpec.lookup at h
   simp [List.find?_eq_none] at h
   intro p hp e
   exact h p.1 p.2 hp e
+
+theorem lookup_some {s : VSpec} {k : String} {c : Nat} (h : s.lookup k = some c) : (k, c) ∈ s.map := by
+  unfold VSpec.lookup at h
+  simp only [Option.map_eq_some_iff] at h
+  obtain ⟨p, hp, hc⟩ := h
+  have hm := List.mem_of_find?_eq_some hp
+  have hk := List.find?_some hp
+  simp only [beq_iff_eq] at hk
+  obtain ⟨a, b⟩ := p
+  simp only at hk hc; subst hk; subst hc; exact hm
+
+/-- every operation of the specification keeps keys pairwise distinct and child ids valid -/
+theorem apply_specInv (s : VSpec) (op : VOp) (hi : SpecInv s) : SpecInv (s.apply op).1 := by
+  obtain ⟨h1, h2⟩ := hi
+  cases op with
+  | getOrCreate k =>
+    simp only [VSpec.apply]
+    split
+    · exact ⟨h1, h2⟩
+    · next hl =>
+      refine ⟨?_, ?_⟩
+      · simp only [List.map_append, List.map_cons, List.map_nil]
+        rw [List.nodup_append]
+        refine ⟨h1, by simp, ?_⟩
+        intro a ha b hb hab
+        simp at hb; subst hb
+        obtain ⟨p, hp, hpa⟩ := List.mem_map.1 ha
+        exact lookup_none hl p hp (hpa.trans hab)
+      · intro p hp
+        simp only [List.length_append, List.length_cons, List.length_nil]
+        rcases List.mem_append.1 hp with hp | hp
+        · have := h2 p hp; omega
+        · simp at hp; subst hp; simp
+  | remove k =>
+    simp only [VSpec.apply]
+    split
+    · refine ⟨?_, fun p hp => h2 p (List.mem_filter.1 hp).1⟩
+      exact List.Nodup.sublist (List.Sublist.map _ List.filter_sublist) h1
+    · exact ⟨h1, h2⟩
+  | reset => exact ⟨by simp [VSpec.apply], by simp [VSpec.apply]⟩
+  | keys => exact ⟨h1, h2⟩
+  | inc c => exact ⟨h1, by simpa [VSpec.apply] using h2⟩
+  | read c => exact ⟨h1, h2⟩
 
 end Prom.C10
